@@ -707,8 +707,10 @@ class IsoHybrid:
             if bytes(bytearray([instr[offset]])) == b'\x80':
                 self.part_entry = i
                 (const_unused, self.bhead, self.bsect, self.bcyle, self.ptype,
-                 self.ehead, esect_unused, ecyle, self.part_offset,
+                 self.ehead, esect, ecyle, self.part_offset,
                  psize) = struct.unpack_from('<BBBBBBBBLL', instr[:offset + 16], offset)
+                # The two high bits of the ending cylinder live in the sector byte.
+                ecyle |= (esect & 0xc0) << 2
             if i == 2 and instr[offset:offset + 8] == self.EFI_HEADER:
                 self.efi = True
                 (efi_lba, self.efi_count) = struct.unpack_from('<LL', instr[:offset + 16], offset + 8)
@@ -728,7 +730,7 @@ class IsoHybrid:
 
         self.geometry_heads = self.ehead + 1
 
-        self.geometry_sectors = min(psize // ((ecyle + 1) * self.geometry_heads), 63)
+        self.geometry_sectors = min((psize + self.part_offset) // ((ecyle + 1) * self.geometry_heads), 63)
 
         if self.efi:
             self.primary_gpt.parse_primary(instr, self.mac)
